@@ -18,6 +18,9 @@ use std::time::{Duration, Instant};
 
 pub const VERIF_ROOT: &str = "/verif";
 
+/// digest value that compares equal to anything in the cross-profile comparison (see `Outcome::discard_env`)
+pub const DIGEST_ANY: u64 = u64::MAX;
+
 /// set once at start-up: checks that scale their per-case work with the tier read it
 pub static THOROUGH: AtomicBool = AtomicBool::new(false);
 
@@ -69,6 +72,12 @@ impl Outcome {
     }
     pub fn discard(why: impl Into<String>) -> Self {
         Outcome { verdict: Verdict::Discard(why.into()), labels: vec![], nontrivial: false, digest: 0, evals: 0 }
+    }
+    /// a case that could not be judged for a reason that lies in the environment, not in the case (a child process
+    /// that could not be started or did not finish within its time limit on a loaded machine): counted like any discard,
+    /// and left out of the comparison of the two build profiles (the other profile may well have judged it)
+    pub fn discard_env(why: impl Into<String>) -> Self {
+        Outcome { verdict: Verdict::Discard(why.into()), labels: vec![], nontrivial: false, digest: DIGEST_ANY, evals: 0 }
     }
     pub fn label(mut self, l: impl Into<String>) -> Self {
         self.labels.push(l.into());
@@ -551,7 +560,7 @@ fn shard_segment<P: Prop + 'static>(pp: &Arc<P>, env: &ShardEnv, mut st: ShardSt
         if let Some(d) = &env.digest_in {
             if !o.is_fail() {
                 let theirs = d.get(env.base + i).copied();
-                if theirs != Some(o.digest) {
+                if theirs != Some(o.digest) && theirs != Some(DIGEST_ANY) && o.digest != DIGEST_ANY {
                     o.verdict = Verdict::Fail(format!("build profiles disagree on this case: other profile digest {:?}, this profile {}", theirs, o.digest));
                 }
             }
@@ -921,7 +930,7 @@ pub fn run<P: Prop + 'static>(p: Arc<P>, cfg: Config) -> i32 {
     // compare digests of the fixed part
     if let Some(d) = &digest_in {
         for (i, mine) in total.digests.iter().enumerate() {
-            if d.get(i) != Some(mine) && violations.is_empty() {
+            if d.get(i) != Some(mine) && d.get(i) != Some(&DIGEST_ANY) && *mine != DIGEST_ANY && violations.is_empty() {
                 eprintln!("profile disagreement in fixed/regression case #{}", i);
                 let f = Failure {
                     case: p.fixed_cases(cfg.tier).0.into_iter().next().unwrap_or_else(|| {
